@@ -228,3 +228,17 @@ def h_final_state_seen(ic, it, dup):
 def h_raptor_result(ec_kind, ec, preset):
     """raptor requests: DONE iff exit code 0"""
     c20.h_master_result(ec_kind, ec, preset, False, False)
+
+
+@obligation(params={'sw1': (0, c07.M1), 'ebp': (0, 3), 'code': (0, 1),
+                    'first': (0, 1)},
+            partition={'quick': ('sw1', 21), 'thorough': ('sw1', 41)},
+            timeout={'quick': 300, 'thorough': 900},
+            funcs=c07.FUNCS,
+            bounds='as C07 h_cancel_vs_watcher with one pre-emption and one '
+                   'canceller: process exit before poll 1..3 or never, exit '
+                   'code 0 / 3')
+def h_never_left_behind(sw1, ebp, code, first):
+    """whoever wins the cancel/collect race, the task is handed on once with
+    an outcome (it reaches a final state)"""
+    c07.h_cancel_vs_watcher(sw1, 0, ebp, code, first, False, quick=False)
